@@ -212,23 +212,14 @@ def _fixture_provenance(ctx):
         kw[fields[i]] = a
     cfgp = cmc.params()[0].arg
     for fld, cfgname in (('claim_event', 'claim_event_name'), ('release_event', 'release_event_name')):
-        e = kw.get(fld)
-        chain = []
+        from .shared import first_match
+        fm = first_match(ctx, cmc, kw.get(fld)) if kw.get(fld) is not None else None
         ok = False
-        for _ in range(6):
-            if isinstance(e, ast.Name) and e.id in defs:
-                e = defs[e.id]
-            elif isinstance(e, ast.Subscript):
-                e = e.value
-            else:
-                break
-        if isinstance(e, ast.ListComp) and len(e.generators) == 1 and e.generators[0].ifs:
-            g = e.generators[0]
-            cond = ast.unparse(g.ifs[0])
-            var = getattr(g.target, 'id', '')
-            ok = ast.unparse(g.iter).endswith('.events.elements') and \
-                cond in (f'{var}.name == {cfgp}.{cfgname}', f'{cfgp}.{cfgname} == {var}.name') and \
-                isinstance(e.elt, ast.Name) and e.elt.id == var
+        if fm is not None:
+            seq, var, cnd, _rej = fm
+            cond = ast.unparse(cnd)
+            ok = ast.unparse(seq).endswith('.events.elements') and \
+                cond in (f'{var}.name == {cfgp}.{cfgname}', f'{cfgp}.{cfgname} == {var}.name')
         run.add('C04.names', MOD, cmc.qualname, f'fixture.{fld}', ok,
                 f'{fld} is the interface event named {cfgname}' if ok else
                 f'{fld} is not the interface event whose name equals the configured {cfgname}')
@@ -265,7 +256,14 @@ def _validate(ctx):
              'reply value not in enum': 'not in enum_instance.fields.elements', 'reply type not an enum': 'except FindError'}
     guards = [ast.unparse(n.test) for n in ast.walk(cmc.node) if isinstance(n, ast.If) and always_raises(n.body)]
     handlers = [n for n in ast.walk(cmc.node) if isinstance(n, ast.ExceptHandler) and always_raises(n.body)]
-    n_rej = len(guards) + len(handlers)
+    from .shared import rejecting_calls
+    helper_rej = rejecting_calls(ctx, cmc)
+    for c_, h_, r_ in helper_rej:
+        exc = ex.exc_name(h_, r_.exc)
+        run.add('C04.validate', MOD, cmc.qualname, c_, ex.is_sub(exc, mce.fq),
+                f'invalid setting rejected with MultiClientCfgError (in {h_.qualname})' if ex.is_sub(exc, mce.fq) else
+                f'invalid setting raises {exc} (in {h_.qualname})', node=c_)
+    n_rej = len(guards) + len(handlers) + len(helper_rej)
     run.add('C04.validate', MOD, cmc.qualname, f'{n_rej} rejections', n_rej >= 4,
             'claim event, reply type, reply value and release event are each validated' if n_rej >= 4 else
             f'only {n_rej} of the four validations (claim event, reply type, reply value, release event) are present')
